@@ -100,6 +100,12 @@ theorem edgeTwo_dir {T : List Tri} (h2 : EdgeTwo T) {a b : Nat} (hab : a ≠ b) 
     (heM T).count (a, b) + (heM T).count (b, a) = 0 ∨ (heM T).count (a, b) + (heM T).count (b, a) = 2 := by
   rw [← count_norm _ hab]; exact h2 _
 
+theorem mem_edgesF {T : List Tri} {k : HE} : k ∈ edgesF T ↔ ∃ e ∈ heM T, normHE e = k := by
+  simp [edgesF]
+
+theorem mem_edgesF' {T : List Tri} {k : HE} : k ∈ edgesF T ↔ k ∈ (heM T).map normHE := by
+  rw [mem_edgesF, Multiset.mem_map]
+
 /-! ### in-degree = out-degree -/
 
 theorem sum_count_fst (M : Multiset HE) (V : Finset Nat) (hV : ∀ e ∈ M, e.2 ∈ V) (v : Nat) :
